@@ -67,6 +67,7 @@ struct Obj {
     int po2;
     unsigned char po3;
     int po4;
+    int po5;
     // rToggle
     bool pt;
     int g3;
@@ -198,7 +199,7 @@ struct Obj {
         pc = 5; puc = 100; pcn = -3; pcu = -77; pcs = 300;
         pf0 = 0.5f; pf1 = -1000.25f; pf2 = 1.0f; pf3 = -1.0f; pf4 = 440.0f; pf5 = 0.0f;
         pi0 = 1; pi1 = 123456789; pi2 = 0; pi3 = -7; pi4 = 500000; pi5 = 3; pi6 = 5; pi7 = -5; ps = -300;
-        po0 = 1; po1 = GREEN; po2 = 5; po3 = 2; po4 = 0;
+        po0 = 1; po1 = GREEN; po2 = 5; po3 = 2; po4 = 0; po5 = 0;
         pt = false;
         memset(str8, 0, sizeof(str8)); strcpy(str8, "abc");
         str1[0] = 0;
@@ -342,6 +343,7 @@ const rtosc::Ports Obj::ports = {
     rOption(po2, rOpt(-1, low) rOpt(2, mid) rOpt(5, high), rLinear(-1, 5), "sparse map, negative index"),
     rOption(po3, rOptions(a, b, c, d, e), rLinear(0, 4), "unsigned char storage"),
     rOption(po4, rOptionsBound(sine, saw, square), "rOptionsBound"),
+    rOption(po5, rOptions(sine, sawtooth, saw, square, sq, s), rLinear(0, 5), "symbols that are prefixes of earlier ones"),
     rToggle(pt, "toggle"),
     rString(str8, 8, "string"),
     rString(str1, 1, "string of capacity 1"),
@@ -564,7 +566,7 @@ static const Desc descs[] = {
     D(pf0, 'F', "f32"), D(pf1, 'F', "f32"), D(pf2, 'F', "f32"), D(pf3, 'F', "f32"), D(pf4, 'F', "f32"), D(pf5, 'F', "f32"),
     D(pi0, 'I', "i32"), D(pi1, 'I', "i32"), D(pi2, 'I', "i32"), D(pi3, 'I', "i32"), D(pi4, 'I', "i32"), D(pi5, 'I', "i32"), D(pi6, 'I', "i32"), D(pi7, 'I', "i32"),
     D(ps, 'I', "i16"),
-    D(po0, 'O', "i32"), D(po1, 'O', "i32"), D(po2, 'O', "i32"), D(po3, 'O', "u8"), D(po4, 'O', "i32"),
+    D(po0, 'O', "i32"), D(po1, 'O', "i32"), D(po2, 'O', "i32"), D(po3, 'O', "u8"), D(po4, 'O', "i32"), D(po5, 'O', "i32"),
     D(pt, 'T', "b"),
     DA(str8, 'S', "s"), DA(str1, 'S', "s"), DA(str16, 'S', "s"), DA(strf, 'S', "s"),
     DA(af, 'f', "f32"), DA(afs, 'f', "f32"), DA(afl, 'f', "f32"),
